@@ -95,7 +95,7 @@ def addop(operator, prec, fun, numargs=None):
 a = addop
 a(UMinus, 10, lambda x: -x)
 a(UPlus, 10, lambda x: x)
-a("^", 10, math.pow, 2)
+a("^", 8.5, math.pow, 2)  # below the prefix functions (9), above * / (8)
 a("not", 9, lambda x: int(not bool(x)))
 a("abs", 9, abs, 1)
 a("sin", 9, math.sin, 1)
